@@ -3,7 +3,9 @@ tools/py2lean_selftest.py translates this file, evaluates the generated Lean def
 (`#eval`) and compares every result with what CPython computes by importing and calling this module."""
 from __future__ import annotations
 
-from typing import Final
+import base64
+import enum
+from typing import ClassVar, Final
 
 from .consts import Limits
 
@@ -484,3 +486,140 @@ def none_passed(start: int | None = 3, end: int | None = 4) -> int:
 
 def tags(x: int, y: int, z: int) -> bool:
     return x == y and y != z
+
+
+# ---- match statements, `in` over a literal tuple, helpers that never return, enum identity -----------------------
+
+def _fail(name: str, value: int) -> None:
+    raise ValueError(f"{name}={value}")
+
+
+def match_stmt(m: int, x: int) -> int:
+    match m:
+        case 1:
+            return x
+        case 2 | 4 | -6:
+            return x * 2
+        case 3:
+            x += 1
+        case _:
+            return -1
+    return x * 3
+
+
+def match_fallthrough(m: int, x: int) -> int:
+    match m:
+        case 1:
+            return x
+        case 7:
+            x -= 1
+        case 13:
+            return _ovf(x)
+    if x > 50:
+        return x
+    _fail("m", m)
+
+
+def in_tuple(a: int, b: int) -> int:
+    return 1 if a in (0, 3, b) else (2 if b not in (1, a + 1) else 3)
+
+
+class Mode(enum.IntEnum):
+    PLAIN = 1
+    FANCY = 2
+
+
+class Styled:
+    def __init__(self, mode: Mode) -> None:
+        self.__mode: Final[Mode] = mode
+
+    def pick(self, a: int) -> int:
+        if self.__mode is Mode.PLAIN:
+            return a
+        return a * 2 if self.__mode == Mode.FANCY else -a
+
+    def pick_not(self, a: int) -> int:
+        return a + 1 if self.__mode is not Mode.FANCY else a - 1
+
+
+# ---- tables: base64 literals, dicts filled by the class body; abstract callees called with keywords -------------
+
+class Tables:
+    RAW: Final[bytes] = base64.b64decode(
+        "AQIDBAUGBwgJCgsMDQ4PEBESExQVFhcYGRobHB0eHyAhIiMkJSYnKCkqKywtLi8wMTIzNDU2Nzg5Ojs8PT4/QEFCQ0RFRkdISUpLTE1OT1BRUlM="
+    )
+    __WORDS: ClassVar[dict[int, int]] = {}
+    __SUMS: ClassVar[dict[int, int]] = {}
+
+    @staticmethod
+    def _fill(data: str, words: dict[int, int], sums: dict[int, int], offset: int) -> None:
+        raw = base64.b64decode(data)
+        total = 0
+        for i in range(int(len(raw) / 2)):
+            words[i] = raw[i * 2] << 8 | raw[i * 2 + 1]
+            total += words[i] + offset
+            sums[i] = total
+
+    _fill(data="AAEAAgEDAAQABf//" + "AAc=", words=__WORDS, sums=__SUMS, offset=1)
+    del _fill
+
+    @classmethod
+    def raw_at(cls, i: int) -> int:
+        return cls.RAW[i]
+
+    @classmethod
+    def word_at(cls, i: int) -> int:
+        return cls.__WORDS[i] * 1000 + cls.__SUMS[i - 1]
+
+
+def _mk(year: int, month: int, day: int) -> int:
+    return year * 400 + month * 31 + _ckv(day, 1, 31)
+
+
+def keyword_callee(a: int, b: int) -> int:
+    return _mk(day=b, year=a, month=3) + _mk(a, day=b + 1, month=4)
+
+
+# ---- a dict attribute read and stored into (explicit state passing) ------------------------------------------------
+
+class Memo:
+    __STORE: ClassVar[dict[int, int]] = {}
+
+    @classmethod
+    def peek(cls, k: int) -> int:
+        return cls.__STORE[k & 7]
+
+    @classmethod
+    def get(cls, k: int) -> int:
+        slot = k & 7
+        cur = cls.__STORE[slot]
+        if cur != k * 3:
+            cls.__STORE[slot] = k * 3 + cls.peek(k + 1) % 2
+        return cls.__STORE[slot] + cls.__STORE[k % 11]
+
+
+# ---- loops whose body returns; names local to one iteration ------------------------------------------------------------
+
+def first_multiple(a: int, b: int) -> int:
+    for i in range(1, 40):
+        probe = i * a
+        if probe % 7 == b % 7:
+            return probe + _ckv(i, 0, 30)
+        a += 1
+    if a > 1000:
+        raise OverflowError("a")
+    return -a
+
+
+def search(lo: int, hi: int) -> int:
+    """a binary search shape: the body returns when it hits"""
+    while lo < hi:
+        mid = (lo + hi) >> 1
+        sq = mid * mid
+        if sq == 49:
+            return mid
+        if sq < 49:
+            lo = mid + 1
+        else:
+            hi = mid
+    return -lo
